@@ -137,6 +137,9 @@ func (w *World) mkdirAllRaw(p string) {
 // set-up).
 func (w *World) MkdirAllRaw(p string) { w.mkdirAllRaw(p) }
 
+// RemoveDirRaw removes an (empty) directory without going through a process.
+func (w *World) RemoveDirRaw(p string) { delete(w.Dirs, clean(p)) }
+
 // PutFile stores a file without going through a process (scenario set-up,
 // between-run disk faults).
 func (w *World) PutFile(path string, data []byte) {
